@@ -110,6 +110,12 @@ def maxOf : List Rat → Option Rat
 /-- `values.index(v)` then `keys[idx]`. -/
 def keyOfValue (d : Dict) (v : Rat) : Option Nat := (d.find? (fun kv => kv.2 = v)).map (·.1)
 
+/-- The key carried through `sorted(zip(num_bh, values, keys))`: among the remembered candidates with
+    count and excess equal to `m`, the smallest key (since the F32 repair; before it the excess was looked
+    up by value afterwards, `values.index`, which returns the first-evaluated candidate with that value). -/
+def keyOfPair (counts : List Nat) (d : Dict) (m : Nat × Rat) : Option Nat :=
+  ((d.filter (fun kv => decide (counts.getD kv.1 0 = m.1) && decide (kv.2 = m.2))).map (·.1)).min?
+
 /-- The tail of `Bisection1D.search` after the loop: final pick over `calculated_temperatures`. -/
 def finalPick (counts : List Nat) (mem : Dict) : Option Nat :=
   let values := mem.map (·.2)
@@ -117,8 +123,9 @@ def finalPick (counts : List Nat) (mem : Dict) : Option Nat :=
   | none => none                                  -- max([]) raises ValueError
   | some eoi =>
     let pairs := mem.map (fun kv => (counts.getD kv.1 0, kv.2))
-    let eoi' := match lexMinNeg pairs with | some m => m.2 | none => eoi
-    keyOfValue mem eoi'
+    match lexMinNeg pairs with
+    | some m => keyOfPair counts mem m            -- the sorted scan stops at a negative excess: its key
+    | none => keyOfValue mem eoi                  -- no negative excess: `keys[values.index(max(non-positive))]`
 
 /-- The three initial evaluations `[(0,minH), (0,maxH), (xr,maxH)]`. -/
 def tr0 (cfg : Cfg) (xr : Nat) : List (Nat × Rat) := [(0, cfg.minH), (0, cfg.maxH), (xr, cfg.maxH)]
